@@ -495,6 +495,103 @@ def shard_txid(ctx, n_consumers, calls_each, max_schedules):
     ctx.count('txid/scenarios-complete' if complete else 'txid/scenarios-truncated')
 
 
+# ---- the consumer OperationsManager under the cooperative scheduler: caller thread vs notification thread
+def opsched_run(shape, n_tx, choices):
+    """One caller task per transaction (call_operation; the response is 'in flight' at a yield point inside post_message)
+    and one notification task that delivers the report parts of all transactions in order.  Yield points: the in-flight
+    point and every acquire / release of OperationsManager._transactions_lock.  -> (findings, taken, branching)"""
+    from concurrent.futures import Future
+
+    from sdc11073.consumer.operations import OperationsManager
+
+    from vf import sched as S
+    _f, reader, _d = _factory()
+    parts, resp = shape
+    mgr = OperationsManager(reader, 'vf')
+    sched = S.Sched(choices, default='first')
+    mgr._transactions_lock = S.SchedLock(sched, 'transactions_lock', reentrant=False)  # noqa: SLF001
+    futures, set_calls, out = {}, {}, []
+
+    class Client:
+        def __init__(self, message_data):
+            self._md = message_data
+
+        def post_message(self, message, msg='', request_manipulator=None):  # noqa: ARG002
+            sched.yield_point('response-in-flight')
+            return self._md
+
+    orig_set = Future.set_result
+
+    def counting_set(self, result):
+        set_calls[id(self)] = set_calls.get(id(self), 0) + 1
+        return orig_set(self, result)
+
+    def caller(i):
+        def body():
+            futures[i] = mgr.call_operation(Client(mk_response(10 + i, resp)), None)
+        return body
+
+    def notifier():
+        for k, state in enumerate(parts):
+            for i in range(n_tx):
+                mgr.on_operation_invoked_report(mk_report(10 + i, state, f't{i}e{k}'))
+    for i in range(n_tx):
+        sched.spawn(f'call{i}', caller(i))
+    sched.spawn('notify', notifier)
+    Future.set_result = counting_set
+    try:
+        sched.run()
+    finally:
+        Future.set_result = orig_set
+    for t in sched.tasks:
+        if t.exc is not None:
+            if not R.exc_in_library(t.exc):
+                raise t.exc
+            out.append((f'{P}/opsched/raises/{R.exc_sig(t.exc)}', f'{type(t.exc).__name__}: {t.exc}'[:300]))
+    if not out:
+        shortcut = resp in ('Fail', 'Cnclld', 'CnclldMan')
+        for i in range(n_tx):
+            fut = futures.get(i)
+            where = f'parts {parts}, response {resp}, schedule {sched.trace}'
+            if fut is None or not fut.done():
+                out.append((f'{P}/opsched/future-not-done', f'transaction {10 + i} never completes although its final report '
+                                                            f'was delivered: {where}'[:600]))
+                continue
+            if set_calls.get(id(fut), 0) != 1:
+                out.append((f'{P}/opsched/completed-{set_calls.get(id(fut), 0)}-times', where[:600]))
+            res = fut.result()
+            if res.InvocationInfo.InvocationState.value != (resp if shortcut else parts[-1]):
+                out.append((f'{P}/opsched/wrong-final-state', f'{res.InvocationInfo.InvocationState.value}: {where}'[:600]))
+            if not shortcut:
+                got = [p.OperationTarget for p in res.report_parts]
+                want = [f't{i}e{k}' for k in range(len(parts))]
+                if got != want:
+                    out.append((f'{P}/opsched/report-parts', f'report_parts {got}, delivered {want}: {where}'[:600]))
+    return out, list(sched.taken), list(sched.branching)
+
+
+OPSCHED_SHAPES = [(['Wait', 'Start', 'Fin'], 'Wait'), (['Fin'], 'Fin'), (['Wait', 'Start', 'Fail'], 'Wait'), (['Fail'], 'Fail'),
+                  (['FinMod'], 'FinMod')]
+
+
+def shard_opsched(ctx, n_tx, shape_index, max_schedules):
+    from vf import sched as S
+    W.quiet_logging()
+    for n_tx in (n_tx,):  # noqa: B020, PLR1704
+        for shape in (OPSCHED_SHAPES[shape_index],):
+            choices, count, complete = [], 0, False
+            while choices is not None and count < max_schedules and not ctx.out_of_budget():
+                findings, taken, branching = opsched_run(shape, n_tx, choices)
+                count += 1
+                case = {'shape': list(shape), 'n_tx': n_tx, 'choices': taken}
+                ctx.case(case, any(taken), 'opsched')
+                for sig, detail in findings:
+                    ctx.finding(sig, detail, case, 'opsched')
+                choices = S.next_dfs(taken, branching)
+                complete = choices is None
+            ctx.count('opsched/scenarios-complete' if complete else 'opsched/scenarios-truncated')
+
+
 def run(ctx):
     q = ctx.tier == 'quick'
     R.run_shards(ctx, __name__, 'shard_opmgr', [(1, 0, 1, None)] + [(2, i, 7, None if not q else 3) for i in range(7)])
@@ -502,6 +599,7 @@ def run(ctx):
         ctx.exhaustive_parts.append('opmgr')
         R.run_shards(ctx, __name__, 'shard_opmgr', [(3, i, 16, 2) for i in range(16)])
     R.run_shards(ctx, __name__, 'shard_e2e', [(20 if q else 300,)] * (R.NPROC - 2))
+    R.run_shards(ctx, __name__, 'shard_opsched', [(n, i, 400 if q else 30000) for n in (1, 2) for i in range(len(OPSCHED_SHAPES))])
     R.run_shards(ctx, __name__, 'shard_txid', [(2, 1, 40), (2, 2, 40 if q else 400)] if q else [
         (2, 1, 100), (2, 2, 400), (3, 1, 400), (3, 2, 1500)])
 
@@ -513,4 +611,6 @@ def replay(part, case):
         return opmgr_case(ctx, case)
     if part == 'txid':
         return txid_run(case['consumers'], case['calls_each'], case['choices'])[0]
+    if part == 'opsched':
+        return opsched_run(tuple(case['shape']), case['n_tx'], case['choices'])[0]
     return e2e_case(ctx, case)
